@@ -29,31 +29,42 @@ pub fn bin_path() -> Option<PathBuf> {
 
 pub struct CliOut {
     pub code: Option<i32>,
+    /// the signal that ended the program, if one did
+    pub signal: Option<i32>,
     pub stdout: String,
+    pub stderr: String,
     pub timed_out: bool,
+}
+
+/// what the program may never write, whatever it was asked: the trace of a panic or of an overflowed stack
+pub fn stderr_trouble(stderr: &str) -> Option<&'static str> {
+    if stderr.contains("panicked") { Some("panicked") } else if stderr.contains("overflowed") { Some("overflowed") } else { None }
 }
 
 /// run the binary; `stdin_bytes` is fed to its standard input; killed after `limit`
 pub fn run_cli(bin: &PathBuf, args: &[String], stdin_bytes: Option<&[u8]>, limit: Duration) -> CliOut {
+    use std::os::unix::process::ExitStatusExt;
     let mut cmd = Command::new(bin);
-    cmd.args(args).stdout(Stdio::piped()).stderr(Stdio::null()).env("TZ", "UTC");
+    cmd.args(args).stdout(Stdio::piped()).stderr(Stdio::piped()).env("TZ", "UTC");
     cmd.stdin(if stdin_bytes.is_some() { Stdio::piped() } else { Stdio::null() });
     let mut child = match cmd.spawn() {
         Ok(c) => c,
-        Err(_) => return CliOut { code: None, stdout: String::new(), timed_out: true },
+        Err(_) => return CliOut { code: None, signal: None, stdout: String::new(), stderr: String::new(), timed_out: true },
     };
+    let mut so = child.stdout.take().unwrap();
+    let reader = std::thread::spawn(move || { let mut buf = Vec::new(); let _ = so.read_to_end(&mut buf); buf });
+    let mut se = child.stderr.take().unwrap();
+    let err_reader = std::thread::spawn(move || { let mut buf = Vec::new(); let _ = se.read_to_end(&mut buf); buf });
     if let Some(bytes) = stdin_bytes {
         if let Some(mut si) = child.stdin.take() {
             let _ = si.write_all(bytes);
         }
     }
-    let mut so = child.stdout.take().unwrap();
-    let reader = std::thread::spawn(move || { let mut buf = Vec::new(); let _ = so.read_to_end(&mut buf); buf });
     let start = Instant::now();
     let mut timed_out = false;
-    let code = loop {
+    let status = loop {
         match child.try_wait() {
-            Ok(Some(st)) => break st.code(),
+            Ok(Some(st)) => break Some(st),
             Ok(None) => {
                 if start.elapsed() > limit { let _ = child.kill(); let _ = child.wait(); timed_out = true; break None; }
                 std::thread::sleep(Duration::from_millis(5));
@@ -62,7 +73,8 @@ pub fn run_cli(bin: &PathBuf, args: &[String], stdin_bytes: Option<&[u8]>, limit
         }
     };
     let out = reader.join().unwrap_or_default();
-    CliOut { code, stdout: String::from_utf8_lossy(&out).to_string(), timed_out }
+    let err = err_reader.join().unwrap_or_default();
+    CliOut { code: status.and_then(|s| s.code()), signal: status.and_then(|s| s.signal()), stdout: String::from_utf8_lossy(&out).to_string(), stderr: String::from_utf8_lossy(&err).to_string(), timed_out }
 }
 
 fn format_name(f: &OutputFormat) -> &'static str {
@@ -256,74 +268,139 @@ pub fn layout_stream(run: &mut Run, rng: &mut Rng, n: usize) {
 }
 
 /// C19 through the program: `sqlgrep --follow --head` on a file that does not grow, interrupted (SIGINT) while it waits
-/// for the next line. The program must stop — promptly: it is given ten seconds — without reporting an error, and what it
-/// printed must be exactly the complete lines present (a prefix of what an uninterrupted run would print). The interrupt
-/// is sent only after the expected output has arrived (or 3 s), so a loaded machine delays the test instead of failing it.
+/// for the next line. The program must stop — promptly: it is given ten seconds — without reporting an error: exit status
+/// 0 (what the unchanged program returns after an interrupt in every mode), nothing about a panic or an overflowed stack
+/// on standard error, no `Execution error` on either stream. What it printed must be exactly the complete lines present (a
+/// prefix of what an uninterrupted run would print); for an aggregate statement the LAST SCREEN must be the table the
+/// same program prints in a batch run over a prefix of the complete lines — at least as many lines as screens had been
+/// seen before the signal, at most the lines present ("the table for exactly the lines consumed"). The interrupt is sent
+/// only after the expected output has arrived (or 3 s), so a loaded machine delays the test instead of failing it. A
+/// program that was KILLED by the signal although its output had been seen (so the handler, installed before the query
+/// starts, was certainly in place) fails; killed with nothing seen yet — the signal may have arrived before the handler
+/// was installed — is inconclusive: the scenario is repeated with a longer wait, and counted as inconclusive (neither a
+/// pass nor a failure) if that keeps happening.
 pub fn interrupt_stream(run: &mut Run, rng: &mut Rng, n: usize) {
+    use std::os::unix::process::ExitStatusExt;
     let bin = match bin_path() { Some(b) => b, None => { run.count("cli:binary-not-available"); return; } };
     const DEF: &str = "CREATE TABLE t(line = '(.*)', line[1] => x TEXT);";
+    const AGG_QUERIES: &[&str] = &["SELECT COUNT(*) AS n FROM t", "SELECT MIN(x) AS a, MAX(x) AS b, COUNT(*) AS n FROM t", "SELECT COUNT(DISTINCT x) AS d, COUNT(*) AS n FROM t"];
     for _ in 0..n {
         let defs_path = tmp_file(DEF.as_bytes());
         let k = rng.below(4);
         let mut content = String::new();
         let mut expected = Vec::new();
-        for j in 0..k { let l = format!("line {} {}", j, rng.pick(&["a", "xyz", "\u{e9}"])); content.push_str(&l); content.push('\n'); expected.push(format!("'{}'", l)); }
+        let mut raw_lines: Vec<String> = Vec::new();
+        for j in 0..k { let l = format!("line {} {}", j, rng.pick(&["a", "xyz", "\u{e9}"])); content.push_str(&l); content.push('\n'); expected.push(format!("'{}'", l)); raw_lines.push(l); }
         if rng.chance(1, 2) { content.push_str("unterminated"); }
         let path = tmp_file(content.as_bytes());
         let aggregate = rng.chance(1, 3);
-        let query = if aggregate { "SELECT COUNT(*) AS n FROM t" } else { "SELECT input FROM t" };
+        let query = if aggregate { *rng.pick(AGG_QUERIES) } else { "SELECT input FROM t" };
         let args = vec![path.display().to_string(), "-d".to_owned(), defs_path.display().to_string(), "-c".to_owned(), query.to_owned(), "--follow".to_owned(), "--head".to_owned()];
-        let mut cmd = Command::new(&bin);
-        cmd.args(&args).stdout(Stdio::piped()).stderr(Stdio::null()).stdin(Stdio::null()).env("TZ", "UTC");
-        let mut child = match cmd.spawn() { Ok(c) => c, Err(_) => { run.count("cli:spawn-failed"); continue; } };
-        let mut so = child.stdout.take().unwrap();
-        let collected = Arc::new(std::sync::Mutex::new(Vec::<u8>::new()));
-        let c2 = collected.clone();
-        let reader = std::thread::spawn(move || { let mut buf = [0u8; 4096]; loop { match so.read(&mut buf) { Ok(0) | Err(_) => break, Ok(m) => c2.lock().unwrap().extend_from_slice(&buf[..m]) } } });
-        // wait until the lines present have been printed (non-aggregate) or the last refresh arrived, at most 3 s
-        let want_lines = if aggregate { if k == 0 { 0 } else { 1 } } else { k };
-        let start = Instant::now();
-        loop {
-            let text = String::from_utf8_lossy(&collected.lock().unwrap()).to_string();
-            let screens = crate::util::split_screens(&text);
-            let have = screens.last().map(|s| s.split('\n').filter(|l| !l.is_empty()).count()).unwrap_or(0);
-            let done = if aggregate { k == 0 || (screens.len() > k && have >= 1) } else { have >= want_lines };
-            if done || start.elapsed() > Duration::from_secs(3) { break; }
-            std::thread::sleep(Duration::from_millis(10));
-        }
-        std::thread::sleep(Duration::from_millis(50));
-        unsafe { libc::kill(child.id() as i32, libc::SIGINT); }
-        let t0 = Instant::now();
-        let mut exited = None;
-        while t0.elapsed() < Duration::from_secs(10) {
-            match child.try_wait() { Ok(Some(st)) => { exited = Some(st); break; } _ => std::thread::sleep(Duration::from_millis(10)) }
-        }
-        run.oracle_checks += 1;
         let desc = format!("sqlgrep {} (file holds {:?}), SIGINT while waiting for more input", args.join(" "), content);
-        match exited {
-            None => {
-                let _ = child.kill(); let _ = child.wait();
-                run.fail(desc, "cli-follow-interrupt-ignored-while-idle", "ten seconds after the interrupt the program is still running".to_owned());
-            }
-            Some(st) => {
-                let _ = reader.join();
+        run.oracle_checks += 1;
+        let mut conclusive = false;
+        for attempt in 0..3 {
+            let mut cmd = Command::new(&bin);
+            cmd.args(&args).stdout(Stdio::piped()).stderr(Stdio::piped()).stdin(Stdio::null()).env("TZ", "UTC");
+            let mut child = match cmd.spawn() { Ok(c) => c, Err(_) => { run.count("cli:spawn-failed"); break; } };
+            let mut so = child.stdout.take().unwrap();
+            let collected = Arc::new(std::sync::Mutex::new(Vec::<u8>::new()));
+            let c2 = collected.clone();
+            let reader = std::thread::spawn(move || { let mut buf = [0u8; 4096]; loop { match so.read(&mut buf) { Ok(0) | Err(_) => break, Ok(m) => c2.lock().unwrap().extend_from_slice(&buf[..m]) } } });
+            let mut se = child.stderr.take().unwrap();
+            let err_reader = std::thread::spawn(move || { let mut buf = Vec::new(); let _ = se.read_to_end(&mut buf); buf });
+            // wait until the lines present have been printed (non-aggregate) or the last refresh arrived, at most 3 s
+            let want_lines = if aggregate { if k == 0 { 0 } else { 1 } } else { k };
+            let start = Instant::now();
+            let mut seen_screens = 0usize;   // aggregate: refreshes that showed a table before the signal
+            let mut seen_lines = 0usize;     // select: lines printed before the signal
+            loop {
                 let text = String::from_utf8_lossy(&collected.lock().unwrap()).to_string();
-                run.count(if aggregate { "cli:interrupt:follow-agg" } else { "cli:interrupt:follow-select" });
-                if !aggregate {
-                    let got: Vec<&str> = text.split('\n').filter(|l| !l.is_empty()).collect();
-                    let is_prefix = got.len() <= expected.len() && got.iter().zip(expected.iter()).all(|(a, b)| a == b);
-                    if !is_prefix || text.contains("Execution error") {
-                        run.fail(desc, "cli-follow-interrupt-output", format!("printed {:?} (exit {:?}); the complete lines are {:?}", got, st.code(), expected));
-                    }
-                } else if text.contains("Execution error") {
-                    run.fail(desc, "cli-follow-interrupt-output", format!("an error was reported: {:?}", text));
+                let screens = crate::util::split_screens(&text);
+                let have = screens.last().map(|s| s.split('\n').filter(|l| !l.is_empty()).count()).unwrap_or(0);
+                // a screen counts once it is complete (the next erase arrived, or it is the last and ends with a line break)
+                seen_screens = screens.iter().skip(1).filter(|s| s.ends_with('\n')).count();
+                seen_lines = text.matches('\n').count();
+                let done = if aggregate { k == 0 || (screens.len() > k && have >= 1 && seen_screens >= k) } else { have >= want_lines };
+                if done || start.elapsed() > Duration::from_secs(3) { break; }
+                std::thread::sleep(Duration::from_millis(10));
+            }
+            // nothing can be observed when nothing is to be printed: give the program time to install its handler
+            let idle_wait = [50u64, 400, 1500][attempt];
+            std::thread::sleep(Duration::from_millis(idle_wait));
+            unsafe { libc::kill(child.id() as i32, libc::SIGINT); }
+            let t0 = Instant::now();
+            let mut exited = None;
+            while t0.elapsed() < Duration::from_secs(10) {
+                match child.try_wait() { Ok(Some(st)) => { exited = Some(st); break; } _ => std::thread::sleep(Duration::from_millis(10)) }
+            }
+            let st = match exited {
+                None => {
+                    let _ = child.kill(); let _ = child.wait();
+                    let _ = reader.join(); let _ = err_reader.join();
+                    run.fail(desc.clone(), "cli-follow-interrupt-ignored-while-idle", "ten seconds after the interrupt the program is still running".to_owned());
+                    conclusive = true;
+                    break;
+                }
+                Some(st) => st,
+            };
+            let _ = reader.join();
+            let stderr = String::from_utf8_lossy(&err_reader.join().unwrap_or_default()).to_string();
+            let text = String::from_utf8_lossy(&collected.lock().unwrap()).to_string();
+            let seen_anything = if aggregate { seen_screens > 0 } else { seen_lines > 0 };
+            if st.signal() == Some(libc::SIGINT) && !seen_anything && stderr.is_empty() {
+                // the signal's default action ended the program and nothing had been printed: it may have arrived before the
+                // handler was installed (start-up under load) — not an observation of the property either way
+                run.count("cli:interrupt:follow-retry-killed-before-output");
+                continue;
+            }
+            conclusive = true;
+            run.count(if aggregate { "cli:interrupt:follow-agg" } else { "cli:interrupt:follow-select" });
+            if let Some(word) = stderr_trouble(&stderr) {
+                run.fail(desc.clone(), "cli-follow-interrupt-stderr", format!("standard error says `{}`: {:?} (exit {:?}, signal {:?})", word, stderr.chars().take(600).collect::<String>(), st.code(), st.signal()));
+                break;
+            }
+            if st.code() != Some(0) {
+                run.fail(desc.clone(), "cli-follow-interrupt-exit-status", format!("after the interrupt the program ended with exit {:?} / signal {:?} (an interrupted query ends with status 0: no error is reported); standard error {:?}; {} seen before the signal", st.code(), st.signal(), stderr.chars().take(300).collect::<String>(), if aggregate { format!("{} refreshed tables", seen_screens) } else { format!("{} lines", seen_lines) }));
+                break;
+            }
+            if text.contains("Execution error") || stderr.contains("Execution error") {
+                run.fail(desc.clone(), "cli-follow-interrupt-output", format!("an error was reported: stdout {:?} stderr {:?}", text, stderr));
+                break;
+            }
+            if !aggregate {
+                let got: Vec<&str> = text.split('\n').filter(|l| !l.is_empty()).collect();
+                let is_prefix = got.len() <= expected.len() && got.iter().zip(expected.iter()).all(|(a, b)| a == b);
+                if !is_prefix {
+                    run.fail(desc.clone(), "cli-follow-interrupt-output", format!("printed {:?} (exit {:?}); the complete lines are {:?}", got, st.code(), expected));
+                }
+            } else {
+                // the last screen = the batch output of the same program over j complete lines, seen_screens <= j <= k
+                let screens = crate::util::split_screens(&text);
+                let last = if screens.len() > 1 { screens.last().cloned().unwrap_or_default() } else { String::new() };
+                let before_first = screens.first().cloned().unwrap_or_default();
+                let mut matched = None;
+                let mut refs: Vec<String> = Vec::new();
+                for j in seen_screens.min(k)..=k {
+                    let prefix_path = tmp_file(join_lines(&raw_lines[..j]).as_slice());
+                    let bargs = vec![prefix_path.display().to_string(), "-d".to_owned(), defs_path.display().to_string(), "-c".to_owned(), query.to_owned()];
+                    let b = run_cli(&bin, &bargs, None, Duration::from_secs(20));
+                    let _ = std::fs::remove_file(prefix_path);
+                    if b.stdout == last { matched = Some(j); break; }
+                    refs.push(b.stdout);
+                }
+                run.count(&format!("cli:interrupt:follow-agg-table:{}", match matched { Some(j) if j == k => "all-lines", Some(0) => "no-line", Some(_) => "fewer-lines", None => "no-match" }));
+                if matched.is_none() || !before_first.is_empty() {
+                    run.fail(desc.clone(), "cli-follow-interrupt-aggregate-table", format!("the last screen is {:?} ({} refreshed tables had been seen before the signal, {:?} was printed before the first refresh); the batch run of the same program over {}..={} of the complete lines prints {:?}", last, seen_screens, before_first, seen_screens.min(k), k, refs));
                 }
             }
+            break;
         }
+        if !conclusive { run.count("cli:interrupt:follow-inconclusive"); }
         let _ = std::fs::remove_file(path);
         let _ = std::fs::remove_file(defs_path);
     }
-    run.notes.push("command-line interrupt stream: the real program in follow mode on an idle file is sent SIGINT; it must stop within ten seconds, report no error, and have printed a prefix of the complete lines".to_owned());
+    run.notes.push("command-line interrupt stream: the real program in follow mode on an idle file is sent SIGINT; it must stop within ten seconds with exit status 0, nothing about a panic / overflow on standard error, no error reported, and have printed a prefix of the complete lines (aggregate: the last screen = the batch table of the same program over the lines whose refreshes were seen .. the lines present); killed by the signal before any output = inconclusive, repeated".to_owned());
 }
 
 /// A *batch* query reading standard input (`--stdin`, started with `-c` or `--command-file`) is interrupted while it waits
@@ -333,7 +410,10 @@ pub fn interrupt_stream(run: &mut Run, rng: &mut Rng, n: usize) {
 /// same program run over those lines alone with the input closed at once. (The waiting `read` itself does not return on the
 /// interrupt — the program notices the flag when the next line or the end of input arrives; that is why more input is
 /// supplied. Output that corresponds to *fewer* of the lines than were written means the interrupt overtook the reading
-/// under machine load: the scenario is repeated once with longer waits before it counts.)
+/// under machine load: the scenario is repeated once with longer waits before it counts.) "No error is reported" is also
+/// judged on the exit status — 0, what the unchanged program returns after an interrupt — and on standard error, which
+/// must not speak of a panic or an overflowed stack; the pipe having been drained shows that the query was reading, so the
+/// handler (installed before the query starts) was in place: a program killed by the signal then has failed.
 pub fn batch_interrupt_stream(run: &mut Run, rng: &mut Rng, n: usize) {
     let bin = match bin_path() { Some(b) => b, None => { run.count("cli:binary-not-available"); return; } };
     const DEF: &str = "CREATE TABLE t(line = 'k=([a-z]+) v=(-?[0-9]+)', line[1] => k TEXT, line[2] => v INT);";
@@ -365,11 +445,13 @@ pub fn batch_interrupt_stream(run: &mut Run, rng: &mut Rng, n: usize) {
         for attempt in 0..2 {
             let (settle, after) = if attempt == 0 { (300u64, 200u64) } else { (2000, 700) };
             let mut cmd = Command::new(&bin);
-            cmd.args(&args).stdout(Stdio::piped()).stderr(Stdio::null()).stdin(Stdio::piped()).env("TZ", "UTC");
+            cmd.args(&args).stdout(Stdio::piped()).stderr(Stdio::piped()).stdin(Stdio::piped()).env("TZ", "UTC");
             let mut child = match cmd.spawn() { Ok(c) => c, Err(_) => { run.count("cli:spawn-failed"); break; } };
             let mut si = child.stdin.take().unwrap();
             let mut so = child.stdout.take().unwrap();
             let reader = std::thread::spawn(move || { let mut buf = Vec::new(); let _ = so.read_to_end(&mut buf); buf });
+            let mut se = child.stderr.take().unwrap();
+            let err_reader = std::thread::spawn(move || { let mut buf = Vec::new(); let _ = se.read_to_end(&mut buf); buf });
             let mut text = lines.join("\n"); text.push('\n');
             let _ = si.write_all(text.as_bytes()); let _ = si.flush();
             use std::os::unix::io::AsRawFd;
@@ -389,11 +471,25 @@ pub fn batch_interrupt_stream(run: &mut Run, rng: &mut Rng, n: usize) {
             }
             if exited.is_none() { let _ = child.kill(); let _ = child.wait(); }
             let out = String::from_utf8_lossy(&reader.join().unwrap_or_default()).to_string();
+            let stderr = String::from_utf8_lossy(&err_reader.join().unwrap_or_default()).to_string();
+            if let Some(word) = stderr_trouble(&stderr) {
+                // whatever the timing was, this is never an answer
+                verdict = Some(("cli-batch-interrupt-stderr".to_owned(), format!("standard error says `{}`: {:?} (exit {:?})", word, stderr.chars().take(600).collect::<String>(), exited)));
+                break;
+            }
             if !drained { run.count("cli:interrupt:batch-inconclusive-not-read"); verdict = None; continue; }
             let want = reference(k);
             if exited.is_none() {
                 verdict = Some(("cli-batch-interrupt-ignored".to_owned(), "ten seconds after the interrupt and the end of the input the program is still running".to_owned()));
                 break;
+            }
+            {
+                use std::os::unix::process::ExitStatusExt;
+                let st = exited.unwrap();
+                if st.code() != Some(0) || stderr.contains("Execution error") {
+                    verdict = Some(("cli-batch-interrupt-exit-status".to_owned(), format!("after the interrupt the program ended with exit {:?} / signal {:?} (an interrupted query ends with status 0: no error is reported); it printed {:?}; standard error {:?}", st.code(), st.signal(), out, stderr.chars().take(300).collect::<String>())));
+                    break;
+                }
             }
             if out == want && !out.contains("Execution error") { verdict = None; run.count("cli:interrupt:batch-ok"); break; }
             let fewer = (0..k).any(|j| reference(j) == out);
@@ -408,7 +504,7 @@ pub fn batch_interrupt_stream(run: &mut Run, rng: &mut Rng, n: usize) {
         let _ = std::fs::remove_file(defs_path);
         let _ = std::fs::remove_file(query_path);
     }
-    run.notes.push("command-line batch interrupt stream: the real program reading --stdin (-c / --command-file) is sent SIGINT after the written lines were read; it must end without an error and print exactly what the same program prints over those lines alone".to_owned());
+    run.notes.push("command-line batch interrupt stream: the real program reading --stdin (-c / --command-file) is sent SIGINT after the written lines were read; it must end without an error — exit status 0, nothing about a panic / overflow on standard error — and print exactly what the same program prints over those lines alone".to_owned());
 }
 
 /// `sqlgrep --follow [--head]` on a file that does not grow: with --head the complete lines present are delivered
@@ -446,4 +542,59 @@ pub fn follow_stream(run: &mut Run, rng: &mut Rng, n: usize) {
         let _ = std::fs::remove_file(path);
         let _ = std::fs::remove_file(defs_path);
     }
+}
+
+/// Finding D75 on the real program (called by C09): an operator chain WITHOUT brackets (`1 + 1 + … + 1`, `x > 0 AND …`,
+/// `- - - … 1`, `NOT NOT … true`, `x::int::int…`, `a[1][1]…`, …; `c14::long_chain`) given with `--command-file` (a single
+/// argument is limited to 128 KiB), on the main thread of the program with the stack the machine gives it. Each size is
+/// run twice: over an EMPTY file — no row is evaluated, so a death there happened while the statement was parsed, lowered
+/// or dropped — and over the one line `5 7`. The safe size (200 terms) must print the documented record with exit status
+/// 0; above it a death by stack overflow (SIGSEGV / SIGABRT and `has overflowed its stack` on standard error) is class
+/// `D75:long-operator-chain-overflows-stack`, anything else that is not the documented answer an unknown failure. When
+/// the run over the empty file ends normally and the run over the one line dies, an ACCEPTED statement aborted during
+/// execution: C09 itself.
+pub fn chain_stream(run: &mut Run, sizes: &[usize]) {
+    let bin = match bin_path() { Some(b) => b, None => { run.count("cli:binary-not-available"); run.notes.push("operator chains through the real program: skipped, the sqlgrep binary was not available".to_owned()); return; } };
+    const DEF: &str = "CREATE TABLE t(line = '(-?[0-9]+) (-?[0-9]+)', line[1] => x INT, line[1], line[2] => a INT[]);";
+    let defs_path = tmp_file(DEF.as_bytes());
+    let empty_path = tmp_file(b"");
+    let line_path = tmp_file(b"5 7\n");
+    let mut exec_deaths = 0;
+    for kind in 0..crate::c14::CHAIN_KINDS {
+        for &n in sizes {
+            let (text, expected) = crate::c14::long_chain(kind, n);
+            let (sample, _) = crate::c14::long_chain(kind, 3);
+            let query_path = tmp_file(text.as_bytes());
+            let mut outcomes: Vec<&'static str> = Vec::new();   // per run: "ok" | "overflow" | "other"
+            for (which, data) in [("an empty file", &empty_path), ("the line `5 7`", &line_path)].iter() {
+                let args = vec![data.display().to_string(), "-d".to_owned(), defs_path.display().to_string(), "--command-file".to_owned(), query_path.display().to_string()];
+                let out = run_cli(&bin, &args, None, Duration::from_secs(120));
+                run.oracle_checks += 1;
+                let desc = format!("sqlgrep <file> -d <defs> --command-file <query>: query {} … ({} terms, no bracket; c14::long_chain({}, {})), definitions {}, over {}", sample, n, kind, n, DEF, which);
+                let overflowed = matches!(out.signal, Some(libc::SIGSEGV) | Some(libc::SIGABRT)) && out.stderr.contains("has overflowed its stack");
+                let got: Vec<&str> = out.stdout.split('\n').filter(|l| !l.is_empty()).collect();
+                let documented = out.code == Some(0) && !out.timed_out && stderr_trouble(&out.stderr).is_none() && if *which == "an empty file" { got.is_empty() } else {
+                    match &expected {
+                        Some(rec) if rec.is_empty() => got.is_empty(),
+                        Some(rec) => got.len() == 1 && got[0] == rec.as_str(),
+                        None => got.len() == 1 && got[0].starts_with("Execution error"),
+                    }
+                };
+                if documented {
+                    outcomes.push("ok");
+                } else if overflowed && n > crate::c14::CHAIN_SAFE {
+                    outcomes.push("overflow");
+                    run.fail(desc, "D75:long-operator-chain-overflows-stack", format!("the program died with signal {:?}: standard error ends {:?}", out.signal, out.stderr.lines().last().unwrap_or("")));
+                } else {
+                    outcomes.push("other");
+                    run.fail(desc, if n <= crate::c14::CHAIN_SAFE { "operator-chain-of-safe-size-fails" } else { "operator-chain-fails-otherwise" }, format!("exit {:?} signal {:?} timed out {}; printed {:?}; standard error ends {:?}; documented: {}", out.code, out.signal, out.timed_out, got.iter().take(3).collect::<Vec<_>>(), out.stderr.lines().last().unwrap_or(""), match &expected { Some(r) if r.is_empty() || *which == "an empty file" => "no row, exit 0".to_owned(), Some(r) => format!("the record {:?}, exit 0", r), None => "an `Execution error` line (a subscript applied to an INT)".to_owned() }));
+                }
+            }
+            if outcomes == ["ok", "overflow"] { exec_deaths += 1; }
+            run.count(&format!("cli:chain:{}:{}:{}", crate::c14::chain_name(kind), if n <= crate::c14::CHAIN_SAFE { "safe".to_owned() } else { n.to_string() }, outcomes.join("+")));
+            let _ = std::fs::remove_file(query_path);
+        }
+    }
+    for p in [defs_path, empty_path, line_path] { let _ = std::fs::remove_file(p); }
+    run.notes.push(format!("operator chains without brackets through the real program (main thread, --command-file): {} kinds x sizes {:?}, each over an empty file and over one line; {} (kind, size) pairs were ACCEPTED (the run over the empty file ended normally) and aborted during execution of the one line", crate::c14::CHAIN_KINDS, sizes, exec_deaths));
 }
